@@ -271,6 +271,10 @@ def sparse_cases():
 
         def rows(v):
             return [[v[(i * nc + j) % len(v)] for j in range(nc)] for i in range(nr)]
+        snr, snc = sub[4] - sub[2] + 1, sub[5] - sub[3] + 1
+
+        def subrows(v):
+            return [[v[(i * snc + j + 3) % len(v)] for j in range(snc)] for i in range(snr)]
         outs = [[0, 0, 8, 1], [0, 0, 8, 2], [0, 0, 8, 3]]
         x = ['cell', [0, 0, sh_['pop'][0][0], sh_['pop'][0][1]]]  # a populated cell inside the sparse rectangle
         rect, name = ['rect', full], ['name', 0]
@@ -284,6 +288,9 @@ def sparse_cases():
             'name-fn-and-cell-fn': [['compile', 'f', [name], outs], ['compile', 'g', [x], outs], ['call', 'f', [rows(vals[0])]], ['call', 'g', [3.0]],
                                     ['call', 'f', [rows(vals[1])]], ['call', 'g', [4.0]], ['plain']],
             'two-whatifs-then-plain': [['calc', [rect + [rows(vals[0])]]], ['calc', [rect + [rows(vals[1])]]], ['plain'], ['calc', [x + [9.0]]]],
+            'sub-then-full-then-plain': [['calc', [['rect', sub, subrows(vals[0])]]], ['plain'], ['calc', [rect + [rows(vals[1])]]], ['plain'],
+                                         ['calc', [['rect', sub, subrows(vals[1])]]], ['calc', [x + [2.0]]]],
+            'name-whatif-then-cell-whatif': [['calc', [name + [rows(vals[0])]]], ['calc', [x + [4.0]]], ['plain']],
         }
         for qname, seq in seqs.items():
             for path in ('dict', 'file'):
